@@ -241,11 +241,14 @@ class C19(Check):
             asm, objs = self.build(groups, True)
             out = io.StringIO()
             format_agp(asm, out)
+            # every output format in turn (the scan must not depend on what is written afterwards)
+            ofmt = ("AGP", "TPF", "STR", "REPR")[(n // 4) % 4]
+            case.append(ofmt)
             try:
-                r = runner.invoke(cli, ["--qc-overlaps", "-f", "AGP"], input=out.getvalue())
+                r = runner.invoke(cli, ["--qc-overlaps", "-f", ofmt], input=out.getvalue())
                 err = r.stderr
             except ValueError:
-                r = runner.invoke(cli, ["--qc-overlaps", "-f", "AGP"], input=out.getvalue())
+                r = runner.invoke(cli, ["--qc-overlaps", "-f", ofmt], input=out.getvalue())
                 err = r.output
             want = []
             for i in range(len(objs)):
@@ -376,4 +379,4 @@ class C19(Check):
 
 CHECK = C19()
 # scope added in later rounds, kept in the evidence text
-CHECK.rule += ' Scan over contig names with equal natural-sort keys (ctg_1, ctg_01, ctg_I). Scan over intervals whose ends are on and next to 2^16 and 2^17. CLI with 2-3 input files per invocation (same file name in different directories, distinct names, --name): stderr lists the pairs of every file.'
+CHECK.rule += ' Scan over contig names with equal natural-sort keys (ctg_1, ctg_01, ctg_I). Scan over intervals whose ends are on and next to 2^16 and 2^17. CLI output formats AGP / TPF / STR / REPR in rotation over the cases. CLI with 2-3 input files per invocation (same file name in different directories, distinct names, --name): stderr lists the pairs of every file.'
